@@ -7,8 +7,9 @@ EXTENDS RWHandler
 H(kind, keys, fn) == [kind |-> kind, keys |-> keys, np |-> "no", fn |-> fn, style |-> "assign", rb |-> ""]
 NP(d, where) == [d EXCEPT !.np = where]
 RB(d, fn) == [d EXCEPT !.style = "rb", !.rb = fn]
-LOne(name, base, cfg) == [name |-> name, cls |-> name, base |-> base, sub |-> <<>>, hassub |-> FALSE, cfg |-> cfg, fix |-> ""]
-LSub(name, base, sub, cfg) == [name |-> name, cls |-> name, base |-> base, sub |-> sub, hassub |-> TRUE, cfg |-> cfg, fix |-> ""]
+LOne(name, base, cfg) == [name |-> name, cls |-> name, base |-> base, sub |-> <<>>, hassub |-> FALSE, cfg |-> cfg, im |-> <<>>, fix |-> ""]
+LSub(name, base, sub, cfg) == [name |-> name, cls |-> name, base |-> base, sub |-> sub, hassub |-> TRUE, cfg |-> cfg, im |-> <<>>, fix |-> ""]
+IM(L, name, im) == [L EXCEPT !.name = name, !.cls = name, !.im = im]
 Bad(L, cls, fix) == [L EXCEPT !.cls = cls, !.fix = fix]
 
 ab == <<"a", "b">>
@@ -32,6 +33,12 @@ L_cfg2    == LOne("cfg2", <<H("CR", ab, "rdab"), H("CW", ab, "wrab")>>, ab)
 L_cfg1    == LOne("cfg1", <<H("CR", ab, "rdab"), RB(H("CW", ab, "wrab"), "rdab")>>, <<"b">>)
 L_cfgw    == LOne("cfgw", <<H("R", ab, "rd"), H("W", ab, "wr")>>, ab)
 L_cfg3    == LOne("cfg3", <<H("CW", bc, "wrbc"), H("W", <<"a">>, "wra"), H("CR", abc, "rdall")>>, abc)
+(* ---- hardware functions that fail while the modules start ---- *)
+L_imcomm  == IM(LOne("x", <<H("R", <<"a">>, "rda"), H("CR", bc, "rdbc"), H("W", abc, "wr")>>, <<"c">>), "imcomm", <<<<"rda", "comm">>>>)
+L_imw     == IM(L_cfg2, "imw", <<<<"wrab", "secop">>>>)
+L_imcw3   == IM(L_cfg3, "imcw3", <<<<"wrbc", "plain">>>>)
+L_imrb    == IM(L_cfg1, "imrb", <<<<"rdab", "comm">>>>)
+L_impart  == IM(L_cr3rb, "impart", <<<<"rdall", "part">>>>)
 (* ---- inheritance ---- *)
 L_inh     == LSub("inh", <<H("CR", ab, "rdab"), H("CW", ab, "wrab")>>, <<>>, <<>>)
 L_ovr1    == LSub("ovr1", <<H("CR", ab, "rdab")>>, <<H("PR", <<"a">>, "read_a")>>, <<>>)
@@ -59,15 +66,17 @@ L_nokeyp   == LOne("nokeyp", <<H("PR", <<"z">>, "read_z")>>, <<>>)
 
 Good1 == {L_r2, L_cr2, L_cr3rb, L_mix, L_overlap, L_order, L_rnp, L_rnph, L_crnp, L_crnph, L_wonly}
 GoodCfg == {L_cfg2, L_cfg1, L_cfgw, L_cfg3}
+GoodIm == {L_imcomm, L_imw, L_imcw3, L_imrb, L_impart}
 GoodSub == {L_inh, L_ovr1, L_ovr2, L_ovrw, L_ovrnp, L_subh, L_subh2, L_subsame}
 Refused == {L_dupkey, L_dupkeyF, L_dupplain, L_dupplainF, L_dupw, L_dupfn, L_dupfnF, L_subdup, L_subdupF,
             L_nokeyr, L_nokeycr, L_nokeyw, L_nokeycw, L_nokeyp}
-AllLayouts == Good1 \cup GoodCfg \cup GoodSub \cup Refused
+AllLayouts == Good1 \cup GoodCfg \cup GoodIm \cup GoodSub \cup Refused
 
 (* model checking: a few layouts at a time keeps the state graph small *)
 CatCommon == {L_cr2, L_mix}
 CatRb == {L_cr3rb, L_overlap}
 CatCfg == {L_cfg2, L_cfg1, L_cfg3}
+CatIm == {L_imcomm, L_imw, L_imrb}
 CatSub == {L_ovr1, L_subh2, L_ovrw}
 CatPlain == {L_r2, L_ovrnp, L_crnp}
 NoDevs == {}
@@ -85,18 +94,19 @@ GenSub2 == {L_ovrnp, L_subh, L_subh2, L_subsame}
 BadOnes == {L_dupkey, L_dupplain, L_dupw, L_dupfn, L_subdup, L_nokeyr, L_nokeycr, L_nokeyw, L_nokeycw, L_nokeyp}
 (* the catalogue's refused layouts are refused, its accepted ones accepted *)
 CatalogueVerdicts == lay # NoLay => ((phase = "refused") <=> (lay \in BadOnes))
-AllModes == {"ok", "secop", "plain", "ret", "part", "none", "done"}
+AllModes == {"ok", "secop", "comm", "plain", "ret", "part", "none", "done"}
 QuickModes == {"ok", "secop", "ret", "none", "done"}
 
 (* model checking: the full alphabet on module m, requests on key a and poll rounds on the bystanders n and p *)
 MCNext ==
     \/ \E L \in Layouts : phase = "undef" /\ Define(L, Impl)
     \/ Start(Impl)
-    \/ \E k \in ParamSet : \/ Read("m", k, Impl) \/ (\E v \in ReqVals : Change("m", k, v, Impl))
+    \/ phase = "new" /\ \E k \in ParamSet : Change("m", k, 3, Impl)
+    \/ phase = "run" /\ \E k \in ParamSet : \/ Read("m", k, Impl) \/ (\E v \in ReqVals : Change("m", k, v, Impl))
                              \/ Assign("m", k, 2) \/ (\E v \in {1, X} : HwSet("m", k, v))
     \/ Poll("m", Impl)
-    \/ \E fn \in Fns(lay) : CallCommon("m", fn) \/ \E md \in ModesOf(DeclByFn(lay, fn).kind) : SetMode("m", fn, md)
-    \/ \E x \in {"n", "p"} : Read(x, "a", Impl) \/ Change(x, "a", 1, Impl) \/ Poll(x, Impl)
+    \/ phase = "run" /\ \E fn \in Fns(lay) : CallCommon("m", fn) \/ \E md \in ModesOf(DeclByFn(lay, fn).kind) : SetMode("m", fn, md)
+    \/ phase = "run" /\ \E x \in {"n", "p"} : Read(x, "a", Impl) \/ Change(x, "a", 1, Impl) \/ Poll(x, Impl)
 MCSpec == Init /\ [][MCNext]_vars
 MCBound4 == TLCGet("level") <= 4
 MCBound5 == TLCGet("level") <= 5
